@@ -20,9 +20,10 @@ from . import common, hist, pipeline, progs
 
 DESIGN_REF = "DESIGN.md §5 C10"
 ASSUMPTIONS = ["the failing function raises after its sub-calls returned (a body that fails earlier is the same case for a shorter body)"]
-# user-defined classes (an Exception and a BaseException subclass), the BaseException-only built-ins, and built-in exception
+# user-defined classes (an Exception, an Exception whose instances are immutable - a frozen dataclass -, and a BaseException
+# subclass), the BaseException-only built-ins, and built-in exception
 # classes that library code is tempted to catch and translate
-KINDS = ["Boom", "BoomBase", "KeyboardInterrupt", "SystemExit", "GeneratorExit", "KeyError", "AttributeError", "TypeError",
+KINDS = ["Boom", "BoomFrozen", "BoomBase", "KeyboardInterrupt", "SystemExit", "GeneratorExit", "KeyError", "AttributeError", "TypeError",
          "AssertionError", "FileNotFoundError", "StopIteration", "LookupError", "NotImplementedError", "ImportError", "RecursionError",
          "ValueError", "IndexError"]
 
